@@ -51,15 +51,26 @@ for m in ("m1", "m2"):
         name = os.path.basename(place)[:-3]
         os.makedirs(os.path.dirname(f"{wt}/{place}"), exist_ok=True)
         shutil.copyfile(demo, f"{wt}/{place}")
+        # a unit-test module (crate-private code) needs its `mod` line in the parent module
+        modline = re.search(r"add the line `([^`]+)` to (noodles-[\w/.-]+\.rs)", " ".join(first))
+        def add_mod():
+            if modline:
+                with open(f"{wt}/{modline.group(2)}", "a") as fh: fh.write("\n" + modline.group(1) + "\n")
+        add_mod()
         feat = " --all-features" if crate in ("noodles-bgzf","noodles-bam","noodles-bcf","noodles-cram","noodles-csi","noodles-sam","noodles-vcf","noodles-fasta","noodles-fastq","noodles-gff","noodles-tabix") and pid in ("C16",) else ""
         runcmd = f"cargo test -p {crate} --offline{feat} --test {name}" if kind == "tests" else (f"cargo run -p {crate} --offline --example {name}" if kind == "examples" else f"cargo test -p {crate} --offline{feat} {name}")
         rc0, out0 = sh(runcmd, cwd=wt)
         res["demo_without_change"] = "pass" if rc0 == 0 else f"FAIL rc={rc0}"
+        if modline: sh(f"git checkout -q -- {modline.group(2)}", cwd=wt)
         a, ao = sh(f"git apply {patch}", cwd=wt)
         res["patch_applies_in_seed_worktree"] = (a == 0)
+        add_mod()
         rc1, out1 = sh(runcmd, cwd=wt)
         res["demo_with_change"] = "fails" if rc1 != 0 else "PASSES (no effect?)"
         os.remove(f"{wt}/{place}")
+        if modline:
+            # drop the mod line again but keep the change: re-apply the patch on a clean file
+            sh(f"git checkout -q -- . && git apply {patch}", cwd=wt)
         # touched crates' tests with the change (demo removed)
         crates = sorted(set(re.findall(r"^\+\+\+ b/(noodles-[a-z]+)/", open(patch).read(), re.M)))
         rc2, out2 = sh("cargo test --offline " + " ".join(f"-p {c}" for c in crates) + " 2>&1 | grep -E '^test result|FAILED|panicked' | grep -v ' ok\\. ' | head -5", cwd=wt)
